@@ -211,6 +211,9 @@ func c10Scenarios() []c10Scenario {
 		{Name: "certificate", run: get(env.PathCert)},
 		{Name: "readiness", run: get("/ready")},
 		{Name: "health", run: get("/healthz")},
+		{Name: "sso_redirect_unsigned_error_url_configured", Opts: env.Opts{MetaIDP: &provider.MetadataIDPConfig{ErrorURL: "https://idp.example/error?code=ERRORURL_CODE&ts=ERRORURL_TS"}}, run: sso("redirect", false)},
+		{Name: "callback_post_error_url_configured", Opts: env.Opts{MetaIDP: &provider.MetadataIDPConfig{ErrorURL: "https://idp.example/error"}}, run: callback(spsim.BindPost, "https://mkcbx.sp.example/acs")},
+		{Name: "attribute_query_error_url_configured", Opts: env.Opts{MetaIDP: &provider.MetadataIDPConfig{ErrorURL: "https://idp.example/error"}}, run: query},
 		{Name: "readiness_with_named_parameters", run: getWithNames("/ready")},
 		{Name: "health_with_named_parameters", run: getWithNames("/healthz")},
 		{Name: "metadata_signed_with_named_parameters", Opts: env.Opts{MetaSigAlg: spsim.AlgRSASHA256}, run: getWithNames(env.PathMetadata)},
